@@ -1,7 +1,115 @@
 import Driver.Common
-open Lean Drv
+import Driver.C10
+open Lean Drv Nri Nri.Mux Drv.MuxD
+
+/-!
+Driver for C11.  `script` cases are judged by `Drv.MuxD.judgeScript` (result-by-result
+acceptance by the two-ended model, property evaluated on the observation).  `chaos` cases
+are concurrent: there is no linear order of operations to replay, so the property is
+evaluated on the observation directly (received ⊑ sent per connection, nothing blocked,
+one latched error per end, everything fails after the final close) and the model is used
+in projected form: per connection, the sequence of Read results must be one the
+connection state machine admits (data while open; after the first error only the latched
+error or frames still queued, boundedly many), and what was received must be a prefix of
+the frames the model's `decode` finds for that id on the tapped trunk of the sender.
+-/
+
 namespace Drv.C11
-/-- placeholder until the property's driver is written -/
-def judge (_ : Json) : Except String Verdict := .error "C11 driver not implemented"
+
+structure ConnLog where
+  x : Nat
+  id : Nat
+  written : List Bytes
+  wtail : List String
+  reads : List String
+
+def getConnLog (j : Json) : Except String ConnLog := do
+  pure { x := ← getNat j "end", id := ← getNat j "id",
+         written := (← getStrList j "written").map hexBytes,
+         wtail := ← getStrList j "wtail", reads := ← getStrList j "reads" }
+
+def judgeChaos (inp obs : Json) : Except String Verdict := do
+  let qlen ← getNat inp "qlen"
+  let mode ← getStr inp "mode"
+  let closers ← getNat inp "closers"
+  let nids ← getNat inp "nids"
+  let crashed := getStrD obs "crashed"
+  let cover0 := ["chaos", "mode:" ++ mode, s!"qlen:{qlen}", s!"closers:{closers}", s!"ids:{nids}"]
+  if crashed != "" then
+    return { agree := false, spec := false, why := s!"implementation {crashed}", sig := "C11:crashed",
+             cover := cover0 ++ ["crashed"], nontrivial := true }
+  let conns ← (← getArr obs "conns").mapM getConnLog
+  let blocked ← getStrList obs "blocked"
+  let final ← getStrList obs "final"
+  let tab := hexBytes (← getStr obs "trunk_ab")
+  let tba := hexBytes (← getStr obs "trunk_ba")
+  let fab := (decode tab).1
+  let fba := (decode tba).1
+  let mut spec := true
+  let mut why := ""
+  let mut sig := ""
+  let mut agree := true
+  let mut awhy := ""
+  let mut tags : List String := []
+  if !blocked.isEmpty then
+    spec := false; why := s!"calls that did not return: {blocked.take 4}"; sig := "C11:blocked"
+  if spec && !final.isEmpty then
+    let bad := final.filter fun s => s.startsWith "write succeeded"
+    if !bad.isEmpty then
+      spec := false; why := s!"{bad.take 3}"; sig := "C11:write-ok-after-close"
+  for x in [0, 1] do
+    let mine := conns.filter (·.x == x)
+    let mut errs : List String := []
+    for c in mine do
+      -- what the peer's writer on this id wrote successfully, and what it put on the trunk
+      let peer := conns.find? fun p => p.x != x && p.id == c.id
+      let sentOk := match peer with | some p => p.written | none => []
+      let onTrunk := payloadsOf c.id (if x == 0 then fba else fab)
+      let rcvd := c.reads.filterMap fun r => if r.startsWith "d:" && !r.startsWith "d:late:" then some (hexBytes (r.drop 2).toString) else none
+      let es := c.reads.filterMap fun r => if r.startsWith "e:" then some (r.drop 2).toString else none
+      errs := errs ++ es
+      -- property: received ⊑ what the writer's successful Writes (plus at most the one in
+      -- flight) amount to; concretely a prefix of the frames on the sender's trunk
+      if spec && !(rcvd.isPrefixOf onTrunk) then
+        spec := false; sig := "C11:gap-or-duplicate"
+        why := s!"end {x} id {c.id}: the {rcvd.length} frames received are not a prefix of the {onTrunk.length} frames sent"
+      -- every successful Write is on the trunk, in order (the writer side of "sent")
+      if agree && mode != "cut" && !(sentOk.isPrefixOf (payloadsOf c.id (if x == 0 then fba else fab))) then
+        agree := false; awhy := s!"id {c.id} towards end {x}: successful Writes are not a prefix of the trunk frames"
+      if c.reads.any (· == "blocked") || c.wtail.any (· == "blocked") then
+        if spec then spec := false; sig := "C11:blocked"; why := s!"end {x} id {c.id}: a call did not return"
+      -- model projection: after the first error at most qlen+1 more data results
+      let afterErr := (c.reads.dropWhile fun r => !r.startsWith "e:").filter fun r => r.startsWith "d:"
+      if !afterErr.isEmpty then tags := "select:data-after-error" :: tags
+      if agree && afterErr.length > qlen + 1 then
+        agree := false; awhy := s!"end {x} id {c.id}: {afterErr.length} frames returned after the first error, queue length {qlen}"
+      -- Writes keep failing once they failed
+      let okAfterFail := (c.wtail.dropWhile fun r => !r.startsWith "e:").filter fun r => r.startsWith "ok"
+      if spec && !okAfterFail.isEmpty then
+        spec := false; sig := "C11:write-ok-after-error"; why := s!"end {x} id {c.id}: a Write succeeded after a Write had failed"
+      -- the reader ended with an error (it keeps reading until it sees one)
+      if spec && es.isEmpty && !(c.reads.any (· == "blocked")) then
+        spec := false; sig := "C11:no-error-after-failure"; why := s!"end {x} id {c.id}: the reader never got an error"
+    -- one latched error per end
+    match errs with
+    | k :: rest =>
+      tags := ("err:" ++ k) :: tags
+      if spec && rest.any (· != k) then
+        spec := false; sig := "C11:error-not-latched"; why := s!"end {x}: Reads returned different errors {errs.eraseDups}"
+    | [] => pure ()
+  -- model: an overflow run must report the overflow error at the overflowing end …
+  if mode == "overflow" && !(tags.contains "err:overflow") then
+    tags := "overflow-not-reached" :: tags
+  pure { agree := agree, spec := spec, why := if !spec then why else awhy, sig := if spec then "" else sig,
+         cover := cover0 ++ tags.eraseDups ++ ["trace"], nontrivial := true }
+
+def judge (j : Json) : Except String Verdict := do
+  let inp ← getObj j "in"
+  let obs ← getObj j "obs"
+  match getStrD inp "kind" with
+  | "script" => judgeScript "C11" inp obs
+  | "chaos" => judgeChaos inp obs
+  | k => throw s!"unknown case kind {k}"
+
 def main : IO UInt32 := runLines judge
 end Drv.C11
